@@ -13,7 +13,7 @@ type c03Case struct {
 	Len     int    `json:"len,omitempty"`
 	Items   []int  `json:"items"` // indices into the body alphabet
 	HasElse bool   `json:"has_else,omitempty"`
-	Else    int    `json:"else,omitempty"` // 0 text, 1 @break, 2 @continue  (only meaningful inside an outer loop)
+	Else    int    `json:"else,omitempty"`  // 0 text, 1 @break, 2 @continue  (only meaningful inside an outer loop)
 	Outer   int    `json:"outer,omitempty"` // 0 none, 1 wrapped in an outer @each of 2 passes that prints its own loop.index around it
 	A       int    `json:"a,omitempty"`     // for: init value
 	B       int    `json:"b,omitempty"`     // for: bound
